@@ -27,6 +27,88 @@ fn usage() -> ! {
     std::process::exit(2)
 }
 
+fn run_property(ctx: &Ctx) -> Option<Report> {
+    Some(match ctx.id.as_str() {
+        "C01" => c01::run_c01(ctx),
+        "C02" => c01::run_c02(ctx),
+        "C03" => c01::run_c03(ctx),
+        "C04" => c01::run_c04_supp(ctx),
+        "C05" => c05::run(ctx),
+        "C06" => c06::run(ctx),
+        "C17" => c17::run(ctx),
+        "C20" => c20::run(ctx),
+        "C07" => c07::run(ctx),
+        "C08" => c08::run(ctx),
+        "C09" => c09::run(ctx),
+        "C10" => c10::run(ctx),
+        "C11" => c11::run(ctx),
+        "C12" => c12::run(ctx),
+        "C13" => c13::run(ctx),
+        "C14" => c14::run(ctx),
+        "C15" => c15::run(ctx),
+        "C16" => c16::run(ctx),
+        "C18" => c18::run(ctx),
+        "C19" => c19::run(ctx),
+        _ => return None,
+    })
+}
+
+/// Replay for the enumerative checks without a dedicated single-case replayer: the enumeration
+/// is deterministic, so the recorded violation is re-derived by running the same check (same
+/// profile; the tier recorded in the file) and looking for the recorded key. Exit 1 and a
+/// VIOLATION line when it occurs again, exit 0 when it does not.
+fn generic_replay(ctx: &Ctx, path: &std::path::Path) -> i32 {
+    let Ok(s) = std::fs::read_to_string(path) else {
+        println!("MACHINERY-ERROR cannot read replay file {}", path.display());
+        return 2;
+    };
+    let field = |k: &str| -> Option<String> {
+        let pat = format!("\"{}\":\"", k);
+        let i = s.find(&pat)? + pat.len();
+        let mut out = String::new();
+        let mut esc = false;
+        for c in s[i..].chars() {
+            if esc {
+                out.push(c);
+                esc = false;
+            } else if c == '\\' {
+                esc = true;
+            } else if c == '"' {
+                break;
+            } else {
+                out.push(c);
+            }
+        }
+        Some(out)
+    };
+    let Some(key) = field("key") else {
+        println!("MACHINERY-ERROR replay file has no key");
+        return 2;
+    };
+    let mut c2 = Ctx { id: ctx.id.clone(), tier: ctx.tier, seed: ctx.seed, profile: ctx.profile, replay: None, verif_dir: ctx.verif_dir.clone(), args: ctx.args.clone() };
+    if let Some(t) = field("tier") {
+        c2.tier = if t == "thorough" { Tier::Thorough } else { Tier::Quick };
+    }
+    let Some(rep) = run_property(&c2) else {
+        println!("MACHINERY-ERROR no check for {}", ctx.id);
+        return 2;
+    };
+    if !rep.machinery_errors.is_empty() {
+        for m in &rep.machinery_errors {
+            println!("MACHINERY-ERROR property={} {}", ctx.id, m);
+        }
+        return 2;
+    }
+    let hits: Vec<_> = rep.violations.iter().filter(|v| v.key == key).collect();
+    if let Some(v) = hits.first() {
+        println!("VIOLATION property={} replay={} :: {} :: {} [reproduced, {} cases with this key]", ctx.id, path.display(), key, v.what, hits.len());
+        1
+    } else {
+        println!("REPLAY property={} key {} did not occur again ({} other violations in this run)", ctx.id, key, rep.violations.len());
+        0
+    }
+}
+
 fn main() {
     let args: Vec<String> = std::env::args().skip(1).collect();
     if args.is_empty() {
@@ -91,36 +173,11 @@ fn main() {
             "C17" => c17::replay(&ctx, &path),
             "C07" => c07::replay(&ctx, &path),
             "C09" => c09::replay(&ctx, &path),
-            _ => {
-                eprintln!("no replay for {}", ctx.id);
-                2
-            }
+            _ => generic_replay(&ctx, &path),
         };
         std::process::exit(code);
     }
-    let rep = match ctx.id.as_str() {
-        "C01" => c01::run_c01(&ctx),
-        "C02" => c01::run_c02(&ctx),
-        "C03" => c01::run_c03(&ctx),
-        "C04" => c01::run_c04_supp(&ctx),
-        "C05" => c05::run(&ctx),
-        "C06" => c06::run(&ctx),
-        "C17" => c17::run(&ctx),
-        "C20" => c20::run(&ctx),
-        "C07" => c07::run(&ctx),
-        "C08" => c08::run(&ctx),
-        "C09" => c09::run(&ctx),
-        "C10" => c10::run(&ctx),
-        "C11" => c11::run(&ctx),
-        "C12" => c12::run(&ctx),
-        "C13" => c13::run(&ctx),
-        "C14" => c14::run(&ctx),
-        "C15" => c15::run(&ctx),
-        "C16" => c16::run(&ctx),
-        "C18" => c18::run(&ctx),
-        "C19" => c19::run(&ctx),
-        _ => usage(),
-    };
+    let Some(rep) = run_property(&ctx) else { usage() };
     let code = finish(&ctx, &rep, t0.elapsed().as_secs_f64());
     std::process::exit(code);
 }
